@@ -468,6 +468,8 @@ class Prov:
                             out.add(("tuple",))
                         elif "closure" in rv:
                             out.add(("closure", rv["closure"]))
+                            if interproc:
+                                out |= self.b.facts.ret_atoms(rv["closure"])
                         elif "coroutine" in rv:
                             out.add(("coroutine", rv["coroutine"]))
                     elif rv["k"] == "binop":
@@ -580,11 +582,22 @@ class Facts:
     def __init__(self, path):
         d = json.load(open(path))
         self.meta = {k: d[k] for k in ("crate", "nonce", "rustc", "test_harness", "debug_assertions", "missing_bodies") if k in d}
-        self.adts = {a["path"]: a for a in d["adts"]}
+        self.adt_list = d["adts"]  # several derive-generated ADTs can share one path (serde's `__Field` per enum variant)
+        self.adts = {}
+        for a in d["adts"]:
+            self.adts.setdefault(a["path"], a)
         self.impls = d["impls"]
         self.bodies = {}
+        self.duplicate_names = 0
         for bj in d["bodies"]:
             b = Body(bj, self)
+            if b.name in self.bodies:
+                # derive-generated items of different enum variants can share one printed path: keep them all, disambiguated
+                k = 2
+                while f"{b.name}#{k}" in self.bodies:
+                    k += 1
+                b.name = f"{b.name}#{k}"
+                self.duplicate_names += 1
             self.bodies[b.name] = b
         self._ret = {}
         self._ret_inprogress = set()
